@@ -650,7 +650,7 @@ func histKey(h *bpgen.History) string {
 
 func run(c *vf.Ctx) {
 	defer debug.SetGCPercent(debug.SetGCPercent(400))
-	n := c.N(30, 700)
+	n := c.N(36, 700)
 	st := &stats{variants: map[string]int{}}
 	var h3, totalVersions, totalSplits int64
 	var mu sync.Mutex
